@@ -83,6 +83,18 @@ func newReadWriteSegment(basePath string, baseOffset int64, segmentSize uint32, 
 		if err = initFileWithZeroes(ms.txnFile, segmentSize); err != nil {
 			return nil, err
 		}
+	} else {
+		// A crash between the creation of the file and the end of its zero fill leaves a file that is
+		// shorter than the region mapped below: reading the missing part would fault.
+		var fi os.FileInfo
+		if fi, err = ms.txnFile.Stat(); err != nil {
+			return nil, errors.Wrapf(err, "failed to stat segment file %s", ms.c.txnPath)
+		}
+		if fi.Size() < int64(segmentSize) {
+			if err = initFileWithZeroes(ms.txnFile, segmentSize); err != nil {
+				return nil, err
+			}
+		}
 	}
 
 	if ms.txnMappedFile, err = mmap.MapRegion(ms.txnFile, int(segmentSize), mmap.RDWR, 0, 0); err != nil {
